@@ -67,6 +67,7 @@ func c18(c *Ctx) {
 	r.Rule("R18.E", "SRP formulas: the expressions extracted for A and M1 (through x, v, k, k_v, t, u, s_a, k_a) are the ones of the SRP document, operand for operand", 2)
 	if c.verifySummaries("R18.E") {
 		c.srpFormulas("R18.E")
+		c.srpWrapper("R18.E")
 	}
 
 	in := c.fn("R18.W", load.SrpPkg, "", "getInputCheckPassword")
